@@ -271,11 +271,18 @@ theorem C04_v1_typeddict_member (std : Std) (cfg : Option MetaCfg) (name k : S) 
   cases loadV1 std cfg t v <;> simp
 
 /-- NamedTuple member (v1): field `i` of the class is converted from element `i` by the field's loader. -/
-theorem C04_v1_namedtuple_member (std : Std) (cfg : Option MetaCfg) (name a b : S) (t : Ty) (s : S) (v : JVal) :
-    loadV1 std cfg (.ntuple name [(a, .str, none), (b, t, none)]) (.list [.str s, v]) =
-      (loadV1 std cfg t v >>= fun y => pure (.ntuple name [a, b] [.str s, y])) := by
-  simp [loadV1, jLen, v1NtSeq, jIndex, v1Str, asStr, bind, Except.bind, pure, Except.pure]
-  cases loadV1 std cfg t v <;> simp
+theorem C04_v1_namedtuple_member (std : Std) (cfg : Option MetaCfg) (name a b : S) (t : Ty) (s : S) (v : JVal) (y : PyVal)
+    (h : loadV1 std cfg t v = .ok y) :
+    loadV1 std cfg (.ntuple name [(a, .str, none), (b, t, none)]) (.list [.str s, v]) = .ok (.ntuple name [a, b] [.str s, y]) := by
+  simp [loadV1, jLen, v1NtSeq, jIndex, v1Str, asStr, h, bind, Except.bind, pure, Except.pure]
+
+/-- … and a library error of the member's loader (ParseError, MissingFields, …) is the error of the whole. (A raw
+IndexError — a nested fixed-length tuple that is too short — is caught by the NamedTuple loader itself and reported as
+MissingFields: modelled in `v1NtSeq`, exercised by the C14 correspondence.) -/
+theorem C04_v1_namedtuple_member_error (std : Std) (cfg : Option MetaCfg) (name a b : S) (t : Ty) (s : S) (v : JVal) (e : LErr)
+    (h : loadV1 std cfg t v = .error e) (hr : ∀ k, e ≠ .raw k) :
+    loadV1 std cfg (.ntuple name [(a, .str, none), (b, t, none)]) (.list [.str s, v]) = .error e := by
+  cases e <;> simp_all [loadV1, jLen, v1NtSeq, jIndex, v1Str, asStr, bind, Except.bind, pure, Except.pure]
 
 /-! ## EnvWizard (`EnvLoader`) -/
 
